@@ -299,7 +299,7 @@ def run_check(check_id, tier, seed, only=None):
         if f.get("property") == check_id and f.get("status") == "known" and f["key"] not in known_hits and tier == "thorough":
             print(f"NOTE: listed finding {f['key']} was not observed in this run")
 
-    vacuous = len(outcomes) < 2 and len(cases) > 1
+    vacuous = len(outcomes) < 2 and len(cases) > 1 and not violations
     if vacuous:
         print(f"HARNESS-FAULT property={check_id} vacuous: one outcome from {len(cases)} cases")
         return 2
